@@ -127,13 +127,28 @@ func SynchronousModeFromInt(i int) (SynchronousMode, error) {
 	}
 }
 
+// The pieces of a PRAGMA statement as SQLite's tokenizer sees them: comments count as white
+// space, identifiers may be quoted in four ways, a value may be given as "= v" or "(v)", and
+// a text may hold several statements.
+const (
+	pragmaSep    = `(?:\s|/\*(?s:.*?)\*/|--[^\n]*\n?)`
+	pragmaIdent  = "(?:(?:\\w|\\$|[^\\x00-\\x7f])+|\"[^\"]*\"|\\[[^\\]]*\\]|`[^`]*`|'[^']*')"
+	pragmaPrefix = `(?i)(?:^|;)` + pragmaSep + `*PRAGMA` + pragmaSep + `*(?:` + pragmaIdent + pragmaSep + `*\.` + pragmaSep + `*)?`
+	pragmaAssign = pragmaSep + `*[=(]`
+)
+
+// pragmaName returns a pattern matching the given PRAGMA name, bare or quoted.
+func pragmaName(n string) string {
+	return "(?:" + n + "|\"" + n + "\"|\\[" + n + "\\]|`" + n + "`|'" + n + "')"
+}
+
 // BreakingPragmas are PRAGMAs that, if executed, would break the database layer.
 var BreakingPragmas = map[string]*regexp.Regexp{
-	"PRAGMA journal_mode":       regexp.MustCompile(`(?i)^\s*PRAGMA\s+(\w+\.)?journal_mode\s*=\s*`),
-	"PRAGMA wal_autocheckpoint": regexp.MustCompile(`(?i)^\s*PRAGMA\s+wal_autocheckpoint\s*=\s*`),
-	"PRAGMA wal_checkpoint":     regexp.MustCompile(`(?i)^\s*PRAGMA\s+(\w+\.)?wal_checkpoint`),
-	"PRAGMA synchronous":        regexp.MustCompile(`(?i)^\s*PRAGMA\s+(\w+\.)?synchronous\s*=\s*`),
-	"PRAGMA query_only":         regexp.MustCompile(`(?i)^\s*PRAGMA\s+(\w+\.)?query_only\s*=\s*`),
+	"PRAGMA journal_mode":       regexp.MustCompile(pragmaPrefix + pragmaName("journal_mode") + pragmaAssign),
+	"PRAGMA wal_autocheckpoint": regexp.MustCompile(pragmaPrefix + pragmaName("wal_autocheckpoint") + pragmaAssign),
+	"PRAGMA wal_checkpoint":     regexp.MustCompile(pragmaPrefix + pragmaName("wal_checkpoint")),
+	"PRAGMA synchronous":        regexp.MustCompile(pragmaPrefix + pragmaName("synchronous") + pragmaAssign),
+	"PRAGMA query_only":         regexp.MustCompile(pragmaPrefix + pragmaName("query_only") + pragmaAssign),
 }
 
 // IsBreakingPragma returns true if the given statement is a breaking PRAGMA.
